@@ -140,12 +140,25 @@ class Facts:
                     out.append((o["fn"], None))
         return out
 
-    def resolve_targets(self, callee):
-        """local bodies a callee name may denote: itself, or (for unresolved trait methods) default + all impls"""
+    def local_modules(self):
+        if getattr(self, "_lm", None) is None:
+            self._lm = {d.split("::")[0] for d in self.bodies if not d.startswith("<")} | {a.split("::")[0] for a in self.adts}
+        return self._lm
+
+    def resolve_targets(self, callee, local_traits_only=True):
+        """local bodies a callee name may denote: itself, or (for unresolved methods of a trait defined in this
+        crate) the default body + all impls.  Methods of foreign traits (Mul, Index, From ...) on a generic Self
+        are not fanned out: any impl could be meant and matching by name would invent call edges."""
         if callee in self.bodies:
             res = [callee]
         else:
             res = []
+        if local_traits_only:
+            tp = callee
+            if callee.startswith("<") and " as " in callee:
+                tp = callee[callee.index(" as ") + 4:]
+            if tp.split("::")[0].split("<")[0] not in self.local_modules():
+                return res
         # trait method: "<X as path::Trait>::m" or "path::Trait::m"
         m = callee.rsplit("::", 1)
         if len(m) == 2:
@@ -591,9 +604,11 @@ class Body:
         return res
 
     # ---- validity window
-    def mutable_roots(self, term, acc=None):
-        """locals whose value may change over time and that the term reads: ("local",..) nodes, and locals/params
-        passed by reference to calls inside the term"""
+    def mutable_roots(self, term, acc=None, deep=True):
+        """locals whose value may change over time and that the term reads: ("local",..) nodes and, when deep, locals/params
+        passed by reference to calls inside the term.  A call term is a snapshot taken at its definition site: its value
+        does not change afterwards, so the shallow form is enough for statements about that value; the deep form is needed
+        when the term is to be matched against a *different* evaluation of the same call (e.g. inside a callee)."""
         if acc is None:
             acc = set()
         if not isinstance(term, tuple) or not term:
@@ -608,23 +623,24 @@ class Body:
             elif "&mut" in self.local_ty(term[1]):
                 acc.add(term[1])
         elif k in ("ref", "deref", "discr"):
-            self.mutable_roots(term[1], acc)
+            self.mutable_roots(term[1], acc, deep)
         elif k in ("field", "variant", "cast"):
-            self.mutable_roots(term[1], acc)
+            self.mutable_roots(term[1], acc, deep)
         elif k == "index":
-            self.mutable_roots(term[1], acc)
-            self.mutable_roots(term[2], acc)
+            self.mutable_roots(term[1], acc, deep)
+            self.mutable_roots(term[2], acc, deep)
         elif k == "binop":
-            self.mutable_roots(term[2], acc)
-            self.mutable_roots(term[3], acc)
+            self.mutable_roots(term[2], acc, deep)
+            self.mutable_roots(term[3], acc, deep)
         elif k == "unop":
-            self.mutable_roots(term[2], acc)
+            self.mutable_roots(term[2], acc, deep)
         elif k == "agg":
             for a in term[2]:
-                self.mutable_roots(a, acc)
+                self.mutable_roots(a, acc, deep)
         elif k == "call":
-            for a in term[2]:
-                self.mutable_roots(a, acc)
+            if deep:
+                for a in term[2]:
+                    self.mutable_roots(a, acc, deep)
         return acc
 
     def mutations_in(self, blocks, local, site_bb=None):
@@ -660,8 +676,8 @@ class Body:
                 pass
         return None
 
-    def pred_valid(self, edge, term, site_bb):
-        roots = self.mutable_roots(term)
+    def pred_valid(self, edge, term, site_bb, deep=False):
+        roots = self.mutable_roots(term, None, deep)
         if not roots:
             return True
         region = self.between(edge, site_bb)
@@ -672,19 +688,47 @@ class Body:
         return True
 
     # ---- atoms
-    def facts_at(self, bb, check_valid=True):
-        """normalised atoms that hold whenever bb is entered"""
-        key = ("facts", bb, check_valid)
+    def facts_at(self, bb, deep=False):
+        """atoms that hold whenever bb is entered and are still valid there.  deep=False: valid as statements about the
+        values the guard looked at; deep=True: additionally nothing reachable from the arguments of calls inside the
+        guard was changed between the guard and bb (needed when the guard speaks about an object's *state*)."""
+        key = ("facts", bb, deep)
         if key in self._memo:
             return self._memo[key]
         out = []
         for edge, (term, val) in self.dominating_edges(bb):
-            if check_valid and not self.pred_valid(edge, term, bb):
+            if not self.pred_valid(edge, term, bb, deep):
                 continue
             for a in atoms_of(term, val):
                 out.append(a)
         self._memo[key] = out
         return out
+
+    def facts_at_flagged(self, bb):
+        """[(atom, deep_ok)]"""
+        key = ("factsf", bb)
+        if key in self._memo:
+            return self._memo[key]
+        out = []
+        for edge, (term, val) in self.dominating_edges(bb):
+            if not self.pred_valid(edge, term, bb, False):
+                continue
+            dk = self.pred_valid(edge, term, bb, True)
+            for a in atoms_of(term, val):
+                out.append((a, dk))
+        self._memo[key] = out
+        return out
+
+    def def_origin(self, t, depth=12):
+        """for a ("local", l) term whose local has exactly one whole definition (it may be mutably borrowed later,
+        e.g. an iterator): the origin of that definition; else the term itself"""
+        t0 = strip(t)
+        if t0[0] != "local":
+            return t
+        defs = self.all_defs_origins(t0[1], depth)
+        if len(defs) == 1:
+            return defs[0][1]
+        return t
 
     def edge_atoms(self, edge):
         out = []
@@ -747,7 +791,7 @@ def norm(t, getters=None):
             return norm(t[1], getters)
         return ("cast", norm(t[1], getters), t[2])
     if k == "call":
-        name = t[5] or t[1]
+        name = (t[5] if len(t) > 5 else None) or t[1]
         if getters and name in getters and len(t[2]) == 1:
             return ("field", norm(t[2][0], getters), getters[name])
         if getters and t[1] in getters and len(t[2]) == 1:
@@ -964,6 +1008,9 @@ def subterms(t):
             yield from subterms(a)
     elif k == "repeat":
         yield from subterms(t[1])
+    elif k == "phi":
+        for a in t[1]:
+            yield from subterms(a)
 
 
 def contains(t, pred):
